@@ -536,14 +536,15 @@ def json_account(js):
 
 
 def json_as_grcov(js):
-    """what parse_gcov_gz makes of the JSON (data fed to the glue model): last entry of a line wins, files without lines dropped."""
+    """what parse_gcov_gz makes of the JSON (data fed to the glue model): the entries of a line add up (clamped at 2^64-1) and
+    their branch outcomes are concatenated in entry order (since fix dd2649f), files without lines dropped."""
     out = []
     for f in js["files"]:
         lines, br = {}, {}
         for l in f["lines"]:
-            lines[l["line_number"]] = l["count"]
+            lines[l["line_number"]] = min(lines.get(l["line_number"], 0) + l["count"], gen.U64)
             if l["branches"]:
-                br[l["line_number"]] = [b["count"] > 0 for b in l["branches"]]
+                br.setdefault(l["line_number"], []).extend(b["count"] > 0 for b in l["branches"])
         if not lines:
             continue
         fns = {}
